@@ -16,7 +16,7 @@ PKGS=$(cd $REPO && go list ./x/... ./app/... ./types/... ./utils/... ./crypto/..
 [ -n "$PKGS" ] || { echo "HARNESS: go list of /repo failed" >&2; exit 2; }
 # statement-level points (vrt.Point) in the files that set up and run one EVM message: the concurrent-request pass of C01 serves
 # a request at every one of them
-POINTS='/x/evm/keeper/(state_transition[a-z_]*|msg_server|config|keeper)\.go$|/x/evm/vm/state_db[a-z_]*\.go$|/x/cpc/keeper/(keeper|precompiles)\.go$'
+POINTS='/x/evm/keeper/[a-z_0-9]+\.go$|/x/evm/vm/state_db[a-z_]*\.go$|/x/cpc/keeper/(keeper|precompiles)\.go$'
 $VERIF_ROOT/bin/instr -repo "$REPO" -out "$OV" -profile consensus -points "$POINTS" $PKGS >"$OV/instr.log" 2>&1 || { cat "$OV/instr.log" >&2; exit 2; }
 # the go-ethereum fork (module cache, go1.17) iterates the map of custom precompiled contracts: own that iteration too.
 # The replacement is hand-written for one exact file; if the fork's file is not that file the site stays unowned (reported by C01).
